@@ -118,6 +118,24 @@ def redistributeN (total : Int) (ns : List Node) : List (Node × Int) × Int :=
 def redistribute (total : Int) (ns : List Node) : List (Nat × Int) :=
   (redistributeN total ns).1.map (fun p => (p.1.name, p.2))
 
+/-! ### top-down refresh along a path (GroupQuotaManager.refreshRuntimeNoLock) -/
+
+def lookupRt (name : Nat) (rs : List (Nat × Int)) : Option Int :=
+  (rs.find? (fun p => p.1 == name)).map (·.2)
+
+/-- runtime of child `name` among its siblings `ns` when the parent has `total`. -/
+def levelRuntime (total : Int) (ns : List Node) (name : Nat) : Option Int :=
+  lookupRt name (redistribute total ns)
+
+/-- walk from the root down: each level is (the sibling set, the name of the path's node in it);
+    the node's runtime becomes the total of the next level. -/
+def refreshPath : Int → List (List Node × Nat) → Option Int
+  | total, [] => some total
+  | total, (ns, name) :: rest =>
+    match levelRuntime total ns name with
+    | some rt => refreshPath rt rest
+    | none => none
+
 /-! ### version-stamped cache (updateOneGroupRuntimeQuota / getVersion) -/
 
 /-- one calculator (one dimension) and the stamp/runtime recorded on each child quota. -/
@@ -135,9 +153,6 @@ inductive CalcOp where
   | erase (name : Nat)            -- deleteOneGroup
   | refresh (name : Nat)          -- refreshRuntime step 2 for one child
 deriving Repr
-
-def lookupRt (name : Nat) (rs : List (Nat × Int)) : Option Int :=
-  (rs.find? (fun p => p.1 == name)).map (·.2)
 
 def cacheGet (name : Nat) : List (Nat × Nat × Int) → Option (Nat × Int)
   | [] => none
